@@ -510,6 +510,7 @@ def run(shard, rec, rng):
                 rec.sample({"realisation": "copy_context", "ops": ops, "interleavings": len(scheds)})
     anonymous_locals(L, rec, 40)
     abandoned_response(L, rec)
+    middleware_release_order(L, rec)
     # (b) threads
     TOPS = [o for o in OPS if o != "spawn"]
     for _ in range(cfg["thread_scheds"]):
@@ -637,6 +638,77 @@ def abandoned_response(L, rec):
         if box.get("seen") != ("sibling-data", "sibling-frame"):
             rec.violation("C18/LEAK-release-reached-a-sibling-context", f"an abandoned middleware response was finalised while a sibling context ran ({variant}): the sibling now sees {box.get('seen')!r}",
                           {"realisation": variant, "scenario": "abandoned-response"}, monitor="reference-store")
+
+
+def middleware_release_order(L, rec):
+    """History on one worker thread: requests served one after the other through LocalManager.make_middleware.  The
+    application's own close hook still runs inside its request (its locals resolve, proxies are bound), what it writes
+    there is released with the rest, and the next request on the same thread starts from nothing."""
+    loc, stk = L.Local(), L.LocalStack()
+    mgr = L.LocalManager([loc, stk])
+    user = loc("user")
+    seen = {}
+
+    class Body:
+        def __init__(self, n):
+            self.n, self.i = n, 0
+
+        def __iter__(self):
+            return self
+
+        def __next__(self):
+            self.i += 1
+            if self.i > 2:
+                raise StopIteration
+            return b"x"
+
+        def close(self):
+            # the application's close hook (Response.call_on_close, a streamed body's finaliser)
+            try:
+                seen[self.n, "close"] = (getattr(loc, "user", "MISSING"), stk.top, bool(user), str(user))
+            except RuntimeError as e:
+                seen[self.n, "close"] = ("RuntimeError", str(e))
+            loc.audit = f"closed-{self.n}"
+            stk.push(f"late-{self.n}")
+
+    def inner(environ, start_response):
+        n = environ["n"]
+        seen[n, "start"] = (getattr(loc, "user", "MISSING"), getattr(loc, "audit", "MISSING"), stk.top)
+        loc.user = f"user-{n}"
+        stk.push(f"frame-{n}")
+        return Body(n)
+
+    app = mgr.make_middleware(inner)
+
+    def worker():
+        for n in range(3):
+            it = app({"n": n}, lambda *a: None)
+            b"".join(it)
+            it.close()
+        seen["end"] = (getattr(loc, "user", "MISSING"), getattr(loc, "audit", "MISSING"), stk.top)
+
+    for variant in ("thread", "copy_context"):
+        seen.clear()
+        rec.case()
+        rec.nontrivial(("middleware-release-order", variant))
+        rec.observe("middleware_request_sequences")
+        if variant == "thread":
+            t = threading.Thread(target=worker)
+            t.start()
+            t.join()
+        else:
+            contextvars.copy_context().run(worker)
+        case = {"realisation": variant, "scenario": "middleware-release-order"}
+        for n in range(3):
+            if seen.get((n, "start")) != ("MISSING", "MISSING", None):
+                rec.violation("C18/LEAK-previous-request-visible-after-release", f"request {n} on a re-used {variant} started with {seen.get((n, 'start'))!r} (user, audit, stack top) - data of the request before it", case, monitor="reference-store")
+                break
+            if seen.get((n, "close")) != (f"user-{n}", f"frame-{n}", True, f"user-{n}"):
+                rec.violation("C18/PROXY-unbound-inside-the-request-that-bound-it", f"the close hook of request {n} saw {seen.get((n, 'close'))!r}, its request bound ('user-{n}', 'frame-{n}') and had not released them", case, monitor="proxy")
+                break
+        else:
+            if seen.get("end") != ("MISSING", "MISSING", None):
+                rec.violation("C18/LEAK-previous-request-visible-after-release", f"after the last response was closed the {variant} still holds {seen.get('end')!r}", case, monitor="reference-store")
 
 
 def stress(L, rec, rng, nops):
